@@ -249,3 +249,49 @@ Print Assumptions C04_section_roundtrip.
 Theorem C04_bundled_layouts_roundtrip_ok : forallb config_rt_ok definitions = true.
 Proof. exact definitions_rt_ok. Qed.
 Print Assumptions C04_bundled_layouts_roundtrip_ok.
+
+(* ---- truncated input (framing facts used by C12) ---------------------------------- *)
+From PBK Require Import MdQuery MdQueryProofs FrameExamples FramePrefix FramePrefixEnc.
+
+(* every section is an operation that CUTS: on the stream truncated to k bits it
+   returns the same section, attributes and (truncated) rest when the bits it
+   consumed fit in k, and fails with a library error otherwise *)
+Theorem C04_decode_section_cut :
+  forall (decode_data : list (pname * pvalue) -> reader -> result (bits * reader)),
+  (forall p, cuts (decode_data p)) ->
+  forall c props, cuts (decode_section decode_data c props).
+Proof. exact decode_section_cut. Qed.
+Print Assumptions C04_decode_section_cut.
+
+(* the octets of a truncated input hold the message exactly when the span from
+   the signature to the last consumed bit lies within them *)
+Theorem C04_message_cut :
+  forall (decode_data : list (pname * pvalue) -> reader -> result (bits * reader)),
+  (forall p, cuts (decode_data p)) ->
+  forall sig info ign s m,
+  decode_message decode_data sig info ign s = Ok m ->
+  forall k,
+    if holds_message sig s m k
+    then decode_message decode_data sig info ign (firstn k s) = Ok m
+    else lib_fail (decode_message decode_data sig info ign (firstn k s)).
+Proof. exact message_cut. Qed.
+Print Assumptions C04_message_cut.
+
+(* whenever the full decode succeeds the metadata-only decode succeeds and has
+   consumed everything but the 32 bits of section 5 *)
+Theorem C04_info_consumes_all_but_section5 :
+  forall (decode_data : list (pname * pvalue) -> reader -> result (bits * reader)),
+  (forall p r b r', decode_data p r = Ok (b, r') -> r = b ++ r') ->
+  (forall p r b r' s, decode_data p r = Ok (b, r') -> decode_data p (r ++ s) = Ok (b, r' ++ s)) ->
+  forall sig ign s m,
+  decode_message decode_data sig false ign s = Ok m ->
+  exists mi, decode_message decode_data sig true ign s = Ok mi /\
+    sections_nbits (m_sections m) = (sections_nbits (m_sections mi) + 32)%nat.
+Proof. exact info_from_full_nbits. Qed.
+Print Assumptions C04_info_consumes_all_but_section5.
+
+Example C04_cut_nonvacuous :
+  is_ok (decode_message stub_dd (Some sig_BUFR) false false ex_bytes) = true /\
+  lib_failb (decode_message stub_dd (Some sig_BUFR) false false (firstn 40 ex_bytes)) = true /\
+  is_ok (decode_message stub_dd (Some sig_BUFR) true false (firstn 52 ex_bytes)) = true.
+Proof. repeat split; vm_compute; reflexivity. Qed.
